@@ -140,9 +140,57 @@ func mkImp(a, b string) string {
 	return "(=> " + a + " " + b + ")"
 }
 
+func isLit(a string) bool { return strings.HasPrefix(a, "#x") || strings.HasPrefix(a, "#b") }
+
+func litVal(a string) (*big.Int, int, bool) {
+	if strings.HasPrefix(a, "#x") {
+		v, ok := new(big.Int).SetString(a[2:], 16)
+		return v, 4 * (len(a) - 2), ok
+	}
+	if strings.HasPrefix(a, "#b") {
+		v, ok := new(big.Int).SetString(a[2:], 2)
+		return v, len(a) - 2, ok
+	}
+	return nil, 0, false
+}
+
+// bvAdd / bvSub fold literals and drop zero operands.
+func bvAdd(a, b string) string {
+	va, wa, oa := litVal(a)
+	vb, wb, ob := litVal(b)
+	switch {
+	case oa && ob && wa == wb:
+		return bvLit(wa, new(big.Int).Add(va, vb))
+	case oa && va.Sign() == 0:
+		return b
+	case ob && vb.Sign() == 0:
+		return a
+	}
+	return "(bvadd " + a + " " + b + ")"
+}
+
+func bvSub(a, b string) string {
+	va, wa, oa := litVal(a)
+	vb, wb, ob := litVal(b)
+	switch {
+	case oa && ob && wa == wb:
+		return bvLit(wa, new(big.Int).Sub(va, vb))
+	case ob && vb.Sign() == 0:
+		return a
+	case a == b:
+		if _, w, ok := litVal(a); ok {
+			return bvLitI(w, 0)
+		}
+	}
+	return "(bvsub " + a + " " + b + ")"
+}
+
 func mkEq(a, b string) string {
 	if a == b {
 		return "true"
+	}
+	if isLit(a) && isLit(b) {
+		return "false"
 	}
 	return "(= " + a + " " + b + ")"
 }
